@@ -143,6 +143,9 @@ def gen_call(rng, sname, site, varname, env_vars):
             args.append(const({'i': str(rng.choice([0, 1, 2, 3]))}))
         elif env_vars and rng.random() < 0.2:
             args.append({'v': rng.choice(env_vars)})
+        elif site['kind'] == 'out' and rng.random() < (0.3 if pos == 0 and site.get('flavor') == 'static' else 0.05):
+            # a class object sent as data (an event type, a model class) - in first position it looks like a classmethod's cls
+            args.append(const({'cls': rng.choice(['ValueError', 'KeyError', 'dict', 'Obj'])}))
         else:
             args.append(const(small_arg(rng)))
     kw = [[k, const(small_arg(rng))] for k in site.get('kwnames', []) if rng.random() < 0.7]
